@@ -222,8 +222,19 @@ let hist_obs t a buf =
   let v = validate t a c in
   " val=" ^ res_s unit_s v ^ " "
   ^ (match v with
-      | Ok () -> "view=" ^ res_s (fun v -> ":" ^ value_s v) (view t c) ^ " size=" ^ res_s (fun n -> ":" ^ num_s n) (size_m t c)
-      | _ -> "view=- size=-")
+      | Ok () ->
+        let vw = view t c and sz = size_m t c in
+        "view=" ^ res_s (fun v -> ":" ^ value_s v) vw ^ " size=" ^ res_s (fun n -> ":" ^ num_s n) sz
+        ^ " tv=" ^ (match sz with
+            | Ok n when int_of_n n <= List.length c ->
+              let tb = take n c in
+              (match validate t a tb with
+               | Ok () -> (match vw, view t tb, size_m t tb with
+                   | Ok v1, Ok v2, Ok n2 -> if strip v1 = strip v2 && n2 = n then "ok" else "DIFFERENT"
+                   | _ -> "DIFFERENT")
+               | r -> res_s unit_s r)
+            | _ -> "-")
+      | _ -> "view=- size=- tv=-")
   ^ " buf=" ^ hex_of_bytes buf
 let split_bar s =
   List.filter (fun x -> x <> "") (List.map String.trim (String.split_on_char '|' s))
